@@ -545,7 +545,12 @@ Section Model.
     | LBindFail sid =>
       match srv_at s sid with
       | Some sv =>
-        if sv_pc_eqb (s_pc sv) SvStart && negb (s_shut sv) && bound_any (net s) (addr (s_cfg sv))
+        (* net.Listen fails: address in use.  A ListenAndServe that passed its shutting-down test just before
+           Shutdown was called still reaches net.Listen; it can then only fail on a foreign binder *)
+        if sv_pc_eqb (s_pc sv) SvStart &&
+           (if s_shut sv
+            then match net_get (net s) (addr (s_cfg sv)) with Some Foreign => true | _ => false end
+            else bound_any (net s) (addr (s_cfg sv)))
         then Some (with_srvnet s (upd_srv (servers s) sid (set_pc SvFailed)) (net s))
         else None
       | None => None
